@@ -140,11 +140,15 @@ func (i *IPv4) UnmarshalBinary(data []byte) error {
 	copy(i.NWDst, data[n:n+4])
 	n += 4
 
-	err := i.Options.UnmarshalBinary(data[n:int(i.IHL*4)])
+	hl := int(i.IHL) * 4
+	if hl < n || hl > len(data) {
+		return errors.New("The IPv4 header length field is smaller than the fixed header or larger than the packet.")
+	}
+	err := i.Options.UnmarshalBinary(data[n:hl])
 	if err != nil {
 		return err
 	}
-	n += int(i.IHL*4) - n
+	n = hl
 
 	switch i.Protocol {
 	case Type_ICMP:
